@@ -12,7 +12,7 @@ PRIV_SHARDS = {'A/10', 'A/12', 'A/14', 'A/16', 'A/32', 'A/36', 'A/1b', 'A/25', '
 SCR_SYM = {'scr': 0x31, 'nsacr': 0x3FFF, 'cpacr': 0x0FFFFFFF}  # SCR.NS, FW, AW; coprocessor access controls
 
 
-UNPRIV_QUICK = ['LdrtA1', 'StrtA1', 'LdrbtA1', 'StrhtA1', 'StrbtT1']
+UNPRIV_QUICK = ['LdrhtA1', 'StrhtA1', 'LdrbtA1', 'StrbtT1']  # (word forms LDRT/STRT: thorough tier -- 4 byte-wise translations per unaligned access, > 6 min per unit)
 UNPRIV_ALL = ['LdrtA1', 'LdrtA2', 'StrtA1', 'StrtA2', 'LdrbtA1', 'LdrbtA2', 'StrbtA1', 'StrbtA2', 'LdrtT1', 'LdrbtT1',
               'StrtT1', 'StrbtT1', 'LdrhtA1', 'LdrhtA2', 'StrhtA1', 'StrhtA2', 'LdrsbtA1', 'LdrsbtA2', 'LdrshtA1',
               'LdrshtA2', 'LdrhtT1', 'LdrsbtT1', 'LdrshtT1', 'StrhtT1']
@@ -32,7 +32,7 @@ def unpriv_units(tier):
     us = famcheck.family_units(fams, [7], T, only=rows, tag='/unpriv-mpu/32B', mpu=1, mpu_rsize=[4])
     if tier == 'thorough':
         us += famcheck.family_units(fams, [7], T, only=rows, tag='/unpriv-mpu/256B-subregions', mpu=1, mpu_rsize=[7])
-        us += famcheck.family_units(fams, [7], T, only=UNPRIV_QUICK[:4], tag='/unpriv-mpu/2-regions', mpu=2,
+        us += famcheck.family_units(fams, [7], T, only=['LdrtA1', 'StrtA1', 'LdrbtA1', 'StrhtA1'], tag='/unpriv-mpu/2-regions', mpu=2,
                                     mpu_rsize=[9, 4])
     for u in us:
         u.max_seconds = 3000
